@@ -259,6 +259,56 @@ func TestC11(t *testing.T) {
 		}
 	}
 	r.Count("resumed_compared", resumed)
+	// a session the server has to DECLINE: established by a spec without
+	// extended_master_secret, offered by the same preset with the extension (specs that
+	// change between connections over one cache): the full handshake that follows is not a
+	// resumption for either side
+	{
+		var declined int64
+		for ti, tg := range targets {
+			if tg.ID.Client == tls.HelloGolang.Client || tg.Spec != nil || tg.Pre != nil || ti > len(AllParrots) {
+				continue
+			}
+			if !specHas(tg, func(e tls.TLSExtension) bool { _, ok := e.(*tls.ExtendedMasterSecretExtension); return ok }) ||
+				!specHas(tg, func(e tls.TLSExtension) bool { _, ok := e.(*tls.SessionTicketExtension); return ok }) {
+				continue
+			}
+			id := tg.ID
+			noEMS := Target{Name: tg.Name + "-ems", Spec: func() (*tls.ClientHelloSpec, error) {
+				sp, err := tls.UTLSIdToSpec(id)
+				if err != nil {
+					return nil, err
+				}
+				var keep []tls.TLSExtension
+				for _, e := range sp.Extensions {
+					if _, ok := e.(*tls.ExtendedMasterSecretExtension); !ok {
+						keep = append(keep, e)
+					}
+				}
+				sp.Extensions = keep
+				return &sp, nil
+			}}
+			cache := tls.NewLRUClientSessionCache(4)
+			scfg := peer.ServerConfig()
+			scfg.MaxVersion = tls.VersionTLS12
+			withCache := func(c *tls.Config) { c.ClientSessionCache = cache }
+			if h0 := RunCase(noEMS, GridCase{Server: scfg}, "example.test", withCache, peer.Opts{}); !h0.OK() {
+				continue
+			}
+			h := RunCase(tg, GridCase{Server: scfg}, "example.test", withCache, peer.Opts{})
+			if !h.OK() {
+				continue
+			}
+			label := map[string]string{"target": family(tg.Name), "dim": "declined-resumption", "val": "ems-mismatch"}
+			compareStates(r, h, label, map[string]any{"target": tg.Name}, ti*10+7)
+			if !h.CState.DidResume && !h.SState.DidResume {
+				declined++
+			}
+			r.Case(fmt.Sprintf("%s|declined-resumption|%v|%v", family(tg.Name), h.CState.DidResume, h.SState.DidResume), true)
+		}
+		r.Count("declined_resumptions_compared", declined)
+		r.Floor("declined_resumptions_compared", 10)
+	}
 
 	// ECH: accepted offers (directly / after a HelloRetryRequest), fresh and resumed
 	{
